@@ -24,8 +24,8 @@ CHECKS = {
             'positions x six proof request kinds over the wire must fold to the header\'s merkle root, '
             'every (h <= cp <= tip) header proof to the reference root, everything outside the chain '
             'refused.  B: proof requests in flight while blocks are undone, every choice vector with '
-            '<= 1 deviation (thorough: plus the slices of the second level whose first deviation keeps back a '
-            'proof\'s own read; the full second level is not claimed): a reply is an error or verifies against a chain the daemon had; after '
+            '<= 1 deviation (thorough: plus one slice of the second level - first deviation a stalled header '
+            'read, scenario warm-then-reorg; the full second level is not claimed): a reply is an error or verifies against a chain the daemon had; after '
             'quiescence all proofs verify again.  C: the mutating worker jobs of a reorganisation are '
             'sliced at their storage / file operations and proof requests are served at every slice '
             'point (also with the requests\' own reads torn by the mutation); same oracles.',
